@@ -113,6 +113,56 @@ theorem inlineCollisionGroup_Set_genError (e : inlineCollisionGroup G) (st st1 s
       some (.nil, none, none, env.wrapErrorfAsExternalErrorIfNeeded (some err), { e with elements := g' }, st2) := by
   simp [inlineCollisionGroup_Set, inlineCollisionGroup_Size, hlv, h1, h2, hbig, h3]
 
+/-- `inlineCollisionGroup.Set`, oversized first-level group, no failure: the group is EXPORTED - the slab value handed to
+    `storage.Store` is spelled out (fresh id, size = data-slab prefix + elements size, firstKey of the elements, the elements
+    themselves, anySize, collisionGroup; the model's effect log only records the id), the element returned is the external
+    group with that id and size prefix + SlabIDStorable size; the receiver keeps the new elements -/
+theorem inlineCollisionGroup_Set_export_slab (e : inlineCollisionGroup G) (st st1 st2 st3 : S) (a : Nat) (b : B) (d : D)
+    (hk dg : UInt64) (key value : W) (ks old : Option V) (g' : G) (id : SlabID) (derr : Option ε)
+    (hlv : env.Digester_Levels d ≠ 0)
+    (h1 : env.Digester_Digest d 1 = (dg, derr))
+    (h2 : env.elements_Set e.elements st a b d 1 dg key value = (ks, old, none, g', st1))
+    (hbig : (UInt32.ofNat Gen.inlineCollisionGroupPrefixSize) + env.elements_Size g' > env.maxInlineMapElementSize)
+    (h3 : env.SlabStorage_GenerateSlabID st1 a = (id, none, st2))
+    (h4 : env.SlabStorage_Store st2 id (.dataSlab
+      ({ header := { slabID := id, size := (UInt32.ofNat Gen.mapDataSlabPrefixSize) + env.elements_Size g',
+                     firstKey := env.elements_firstKey g' },
+         elements := g', anySize := true, collisionGroup := true } : MapDataSlab G X)) = (none, st3)) :
+    inlineCollisionGroup_Set env e st a b d 0 hk key value =
+      some (.externalGroup { slabID := id, size := (UInt32.ofNat Gen.externalCollisionGroupPrefixSize) + env.SlabIDStorable_ByteSize },
+            ks, old, none, { e with elements := g' }, st3) := by
+  simp [inlineCollisionGroup_Set, inlineCollisionGroup_Size, storeSlab, MapSlab_SlabID, MapDataSlab_SlabID,
+    hlv, h1, h2, hbig, h3, h4]
+
+/-- `getElementAndNextKey` of the three implementations: key, value, error and state are those of `Get` whenever that holds
+    of the nested `elements` / of the slab fetched from the storage (same level adjustment, same digest) -/
+theorem singleElement_getElementAndNextKey_get (e : singleElement V) (st : S) (d : D) (lvl hk : UInt64) (key : W) :
+    (let r := singleElement_getElementAndNextKey env e st d lvl hk key; (r.1, r.2.1, r.2.2.1, r.2.2.2.1, r.2.2.2.2)) =
+      (let g := singleElement_Get env e st d lvl hk key; (g.1, g.2.1, none, g.2.2.1, g.2.2.2)) := by
+  simp [singleElement_getElementAndNextKey]
+
+theorem inlineCollisionGroup_getElementAndNextKey_get (e : inlineCollisionGroup G) (st : S) (d : D) (lvl hk : UInt64) (key : W)
+    (h : ∀ g st d l hk w, (let r := env.elements_getElementAndNextKey g st d l hk w; (r.1, r.2.1, r.2.2.2.1, r.2.2.2.2)) =
+      env.elements_Get g st d l hk w) :
+    (let r := inlineCollisionGroup_getElementAndNextKey env e st d lvl hk key; (r.1, r.2.1, r.2.2.2.1, r.2.2.2.2)) =
+      inlineCollisionGroup_Get env e st d lvl hk key := by
+  simp only [inlineCollisionGroup_getElementAndNextKey, inlineCollisionGroup_Get]
+  split
+  · rfl
+  · exact h _ _ _ _ _ _
+
+theorem externalCollisionGroup_getElementAndNextKey_get (e : externalCollisionGroup) (st : S) (d : D) (lvl hk : UInt64) (key : W)
+    (h : ∀ (m : MapSlab G X) st d l hk w, (let r := env.MapSlab_getElementAndNextKey m st d l hk w; (r.1, r.2.1, r.2.2.2.1, r.2.2.2.2)) =
+      env.MapSlab_Get m st d l hk w) :
+    (let r := externalCollisionGroup_getElementAndNextKey env e st d lvl hk key; (r.1, r.2.1, r.2.2.2.1, r.2.2.2.2)) =
+      externalCollisionGroup_Get env e st d lvl hk key := by
+  simp only [externalCollisionGroup_getElementAndNextKey, externalCollisionGroup_Get]
+  split
+  · rfl
+  · split
+    · rfl
+    · exact h _ _ _ _ _ _
+
 end unitB
 
 section unitA
